@@ -34,6 +34,8 @@ _bg.randbits = _sim_randbits
 
 def reset_entropy():
     clear_library_caches()
+    reset_library_state()
+    reset_addresses()
     _SCHED["default"] = random.Random("sched/default")
     _SCHED["current"] = None
     SimThreadPool.counter.update(pools=0, tasks=0, reordered=0)
@@ -68,6 +70,82 @@ def clear_library_caches():
     for f in _library_caches():
         try:
             f.cache_clear()
+        except Exception:
+            pass
+
+
+# ---- module-level / class-level mutable state of the library ---------------------------------------------------------------
+# Every plan stands for a freshly started process.  Plain containers (dict / list / set) bound to module globals or class
+# attributes of the library are therefore put back to the content they had when the simulator first saw them (import
+# time) at the start of every plan: state the library keeps across independent uses must be provoked INSIDE a plan
+# ("earlier use" operations), where it replays, not inherited from whatever plan happened to run before in the same shard.
+_STATE = {"n_modules": -1, "seen": {}, "order": []}
+
+
+def _import_all(prefix):
+    """import every submodule of the library once, so that its module-level state is first seen in its import-time condition"""
+    import importlib
+    import pkgutil
+    pkg = sys.modules.get(prefix)
+    if pkg is None:
+        from . import env
+        pkg = env.import_kappadata()  # the snapshot must be taken before the first plan runs, whoever calls first
+    if not hasattr(pkg, "__path__"):
+        return
+    import os
+    names = set()
+    try:
+        names.update(info.name for info in pkgutil.walk_packages(pkg.__path__, prefix + "."))
+    except Exception:
+        pass
+    for root in list(pkg.__path__):  # folders without __init__.py (namespace packages) are not walked by pkgutil
+        for dp, dns, fns in os.walk(root):
+            dns[:] = sorted(d for d in dns if not d.startswith((".", "__")))
+            rel = os.path.relpath(dp, root)
+            base = prefix if rel == "." else prefix + "." + rel.replace(os.sep, ".")
+            for fn in sorted(fns):
+                if fn.endswith(".py") and fn != "__init__.py" and fn != "__main__.py":
+                    names.add(base + "." + fn[:-3])
+    for name in sorted(names):
+        if name not in sys.modules:
+            try:
+                importlib.import_module(name)
+            except BaseException:  # optional dependencies, scripts that exit ...
+                pass
+
+
+def _scan_library_state(prefix="kappadata"):
+    if _STATE["n_modules"] == -1:
+        _import_all(prefix)
+    if len(sys.modules) == _STATE["n_modules"]:
+        return
+    _STATE["n_modules"] = len(sys.modules)
+    for name in sorted(n for n in sys.modules if n == prefix or n.startswith(prefix + ".")):
+        m = sys.modules.get(name)
+        if m is None:
+            continue
+        owners = [m] + [v for v in vars(m).values() if isinstance(v, type) and getattr(v, "__module__", None) == name]
+        for o in owners:
+            for attr, v in list(vars(o).items()):
+                if attr.startswith("__") or type(v) not in (dict, list, set):
+                    continue
+                key = _REAL_ID(v) if "_REAL_ID" in globals() else id(v)
+                if key not in _STATE["seen"]:
+                    _STATE["seen"][key] = (v, type(v)(v))
+                    _STATE["order"].append(key)
+
+
+def reset_library_state():
+    _scan_library_state()
+    for key in _STATE["order"]:
+        obj, snap = _STATE["seen"][key]
+        try:
+            if obj != snap:
+                obj.clear()
+                if isinstance(obj, list):
+                    obj.extend(snap)
+                else:
+                    obj.update(snap)
         except Exception:
             pass
 
@@ -123,6 +201,53 @@ class salted_hash:
 
     def __exit__(self, *a):
         _builtins.hash = self.saved
+
+
+# ---- memory-address seam ------------------------------------------------------------------------------------------------
+# id(obj) is a memory address: whether a new object gets the address of one that died before is the allocator's decision.
+# Library code that keys anything by id() therefore depends on a hidden nondeterministic input.  Under simulation explicit
+# id() calls made by the library get simulated addresses that are reused ADVERSARIALLY: a new object receives the lowest
+# address whose previous holder is dead.  Everybody else's id() (copy, pickle, the harness) is the real one.
+import weakref as _weakref
+
+_REAL_ID = _builtins.id
+_ADDR = {"by_real": {}, "holders": {}, "next": 1, "calls": 0}
+_ADDR_BASE = 0x7F0000000000
+
+
+def reset_addresses():
+    _ADDR["by_real"].clear()
+    _ADDR["holders"].clear()
+    _ADDR["next"] = 1
+    _ADDR["calls"] = 0
+
+
+def sim_id(o):
+    if not sys._getframe(1).f_globals.get("__name__", "").startswith("kappadata"):
+        return _REAL_ID(o)
+    _ADDR["calls"] += 1
+    real = _REAL_ID(o)
+    ent = _ADDR["by_real"].get(real)
+    if ent is not None and ent[1]() is o:
+        return _ADDR_BASE + 16 * ent[0]
+    try:
+        ref = _weakref.ref(o)
+    except TypeError:
+        return real  # cannot be tracked (ints, tuples, ...): the real address
+    slot = None
+    for k in sorted(_ADDR["holders"]):
+        if _ADDR["holders"][k]() is None:
+            slot = k
+            break
+    if slot is None:
+        slot = _ADDR["next"]
+        _ADDR["next"] += 1
+    _ADDR["holders"][slot] = ref
+    _ADDR["by_real"][real] = (slot, ref)
+    return _ADDR_BASE + 16 * slot
+
+
+_builtins.id = sim_id
 
 
 # ---- thread-pool seam -----------------------------------------------------------------------------------------------------
